@@ -376,6 +376,13 @@ def judge(case, run, result):
             ctx = context_problem(st, homes)
             if ctx:
                 problems.append(("%s %s: %s" % (what, pid, ctx), None))
+            if sp.get("callable") in ("prefixed", "marked") and sp["flavour"] in common.COROUTINE and not pid.startswith("svc:"):
+                # a plain callable that does something itself before it hands out its coroutine: calling it is the start
+                for call in [e for e in run.of("step", gen=G, pid=pid) if e.get("n") == -1]:
+                    why = context_problem(dict(call, flavour=sp["flavour"]), homes)
+                    if why:
+                        problems.append(("%s %s is a plain callable handing out its coroutine; it was called outside the runner of its flavour: %s" % (what, pid, why), None))
+                    result.count("plain_callables_called_inside_their_runner")
             if not pid.startswith("svc:") and not st["args_ok"]:
                 problems.append(("payload %s did not receive exactly the supplied arguments %r %r (got %d positional, keywords %s)"
                                  % (pid, sp.get("args"), sp.get("kwargs"), st["nargs"], st["kwkeys"]), None))
@@ -391,6 +398,11 @@ def judge(case, run, result):
         result.count("adoptions_judged", len(case["meta"]["expected"]))
         if case["meta"].get("again"):
             result.count("scenarios_in_the_second_run_of_the_same_runner")
+            # what was queued for the first run ran in the first run: it is not started once more when the runner accepts again
+            earlier = [e for e in run.of("start") if e.get("pid") == "warmup"]
+            if len(earlier) != 1:
+                problems.append(("payload warmup, queued before the first run of the runner, was started %d times over the two runs (generations %r)"
+                                 % (len(earlier), [e.get("gen") for e in earlier]), None))
         if case["meta"].get("idle"):
             result.count("scenarios_with_idle_asyncio_loop")
         if case["meta"].get("storm"):
@@ -491,7 +503,7 @@ def finish(total, tier):
             "gated_adopts_returned_before_payload_released", "scenarios_with_idle_asyncio_loop", "service_storms", "scenarios_with_bursts", "scenarios_with_replaced_services",
             "window_adopts_judged", "adopts_in_shutdown_window_inside", "adopts_in_shutdown_window_outside",
             "scenarios_with_concurrent_registration_before_start", "forced_redecorated_schedules_checked",
-            "scenarios_in_the_second_run_of_the_same_runner"]
+            "scenarios_in_the_second_run_of_the_same_runner", "plain_callables_called_inside_their_runner"]
     need += ["services_of_shape_%s_started_exactly_once" % k for k in ("plain", "subclass", "falsy", "redecorated", "valued")]
     need += ["payloads_adopted_repeatedly_before_start"]
     for name in need:
